@@ -174,6 +174,10 @@ def expectedMutationSites : List (String × String) := [
   ("return_stack.truncate", "abort_run"),
   ("loops.truncate", "abort_run"),
   ("special.truncate", "abort_run"),
+  -- `Resolve` inside a meta block binds for one execution: swap the opcode in, run it, put `Resolve` back
+  -- (Model/VM.lean `patchCode`)
+  ("code.&mut", "fetch_and_run"),
+  ("code.[]=", "fetch_and_run"),
   ("data_stack.pop", "reverse_changes"),
   ("data_stack.push", "reverse_changes"),
   ("data_stack.swap", "reverse_changes"),
@@ -212,7 +216,7 @@ def expectedMutationSites : List (String × String) := [
 theorem mutation_sites_match : src_mutation_sites = expectedMutationSites := rfl
 
 /-- all of them are in state.rs (the fields are private to that module) -/
-theorem mutation_sites_in_state_rs : src_mutation_files = List.replicate 63 "state.rs" := by decide +kernel
+theorem mutation_sites_in_state_rs : src_mutation_files = List.replicate 65 "state.rs" := by decide +kernel
 
 /-- the functions that may touch a run-time stack (`data_stack return_stack loops special heap`), in
     source order: the unwinder of a failed build, the heap primitives, the run-time unwinder, the
